@@ -152,7 +152,13 @@ def mutate(rnd, s):
 def expand(job):
     rnd = random.Random(job.get("seed", 0))
     k = job["kind"]
-    if k == "table":
+    if k == "tables":
+        # the date part of the table for ONE year under several modes in turn, in one process: what an earlier mode
+        # left in the memo tables must not decide what the next mode admits (29 Feb, day 366, week 53, the 31st)
+        for sp in job["modes"]:
+            for c_ in expand({"kind": "table", "mode": sp, "y": job["y"], "dates_only": True}):
+                yield c_
+    elif k == "table":
         sp, y = job["mode"], job["y"]
         base = {"y": y, "hh": 12, "mi": 0, "ss": 0, "zh": 0, "zm": 0}
         for mo in range(-1, 15):
@@ -163,6 +169,8 @@ def expand(job):
         for w in list(range(-1, 4)) + list(range(50, 56)):
             for d in range(-1, 10):
                 yield {"kind": "ctor", "mode": sp, "c": dict(base, rep="week", a=w, b=d)}
+        if job.get("dates_only"):
+            return
         for hh in range(-1, 27):
             for mi in (-1, 0, 59, 60, 61):
                 for ss in (-1, 0, 59, 60, 61):
@@ -237,6 +245,8 @@ def jobs(tier, seed):
           ("360day", 2004), ("365day", 2004), ("366day", 2003), ("360_day", 2015), ("365_day", 2015), ("366_day", 2020)]
     for sp, y in yt if tier == "quick" else yt + [(m_, y_) for m_ in gen.MODES4 for y_ in (-4, -1, 1, 1999, 2100, 2400, 9999)]:
         out.append({"kind": "table", "mode": sp, "y": y})
+    out.append({"kind": "tables", "y": 2004, "modes": ["gregorian", "365day", "366day", "360day", "gregorian"]})
+    out.append({"kind": "tables", "y": 2020, "modes": ["365_day", "gregorian", "360_day", "366_day", "gregorian"]})
     out.append({"kind": "fixed"})
     out.append({"kind": "recbad"})
     n = 1200 if tier == "quick" else 20000
